@@ -202,7 +202,15 @@ fn peer(ty: &str) -> StdResult<&'static PeerFns> {
 #[cfg(feature = "full")]
 fn other_msg<C>(which: u8) -> CosmosMsg<C> {
     use sylvia::cw_std::{AnyMsg, DistributionMsg, GovMsg, IbcMsg, StakingMsg, VoteOption};
-    match which % 5 {
+    match which % 6 {
+        5 => {
+            // the deprecated pre-2.0 spelling of `Any`
+            #[allow(deprecated)]
+            CosmosMsg::Stargate {
+                type_url: "/verif.Stargate".to_string(),
+                value: Binary::from(b"stargate-bytes".to_vec()),
+            }
+        }
         0 => CosmosMsg::Staking(StakingMsg::Delegate {
             validator: "validator-x".to_string(),
             amount: Coin::new(1u128, "ucoin"),
